@@ -127,7 +127,7 @@ fn run_one(img0: &Image, g: &fatck::Geo, ops: &[Op], fault_at_write: Option<u64>
             }
         }
         drop(hs);
-        std::mem::forget(fs);
+        drop(fs);
         verdict
     }));
     let writes = dev.0.borrow().n_writes;
@@ -212,9 +212,9 @@ pub fn run_c14(args: &Args, rep: &mut Report) {
                         let last_w = log.iter().rposition(|e| e.kind == EvKind::Write);
                         let last_f = log.iter().rposition(|e| e.kind == EvKind::Flush);
                         let crash = dev.snapshot();
-                        std::mem::forget(f);
-                        std::mem::forget(dir);
-                        std::mem::forget(fs);
+                        drop(f);
+                        drop(dir);
+                        drop(fs);
                         if let (Some(w), fl) = (last_w, last_f) {
                             if fl.map_or(true, |x| x < w) {
                                 return Ok(Some("the retried flush wrote to the device without flushing it afterwards".into()));
@@ -240,7 +240,7 @@ pub fn run_c14(args: &Args, rep: &mut Report) {
                             }
                             Err(e) => return Ok(Some(format!("file not found after power cut: {:?}", e))),
                         }
-                        std::mem::forget(fs2);
+                        drop(fs2);
                         if back != content {
                             return Ok(Some(format!("after the power cut the file has {} bytes, {} were flushed", back.len(), content.len())));
                         }
